@@ -6,7 +6,8 @@
 set -u
 ID=$1; shift
 CHECKS=${@:-$ID}
-SRC=/tmp/seed-$ID
+SRC=${SEEDDIR:-/tmp/seed-$ID}
+OUT=${OUT:-$ID}
 [ -f $SRC/patch.diff ] || { echo "no patch.diff in $SRC"; exit 2; }
 D=$(mktemp -d /tmp/vfseed.XXXXXX); trap 'rm -rf "$D"' EXIT
 rsync -a --exclude .git --exclude __pycache__ /repo/ "$D/"
@@ -28,6 +29,6 @@ for P in $CHECKS; do
   [ $rc = 2 ] && echo "$out" | grep INCONCLUSIVE | head -3 | cut -c1-300
 done
 cp .work/evbak/*.json evidence/ 2>/dev/null; rm -rf .work/evbak; rm -f replays/*.json
-mkdir -p seeded/$ID
-cp $SRC/patch.diff $SRC/demo.py seeded/$ID/; cp $SRC/NOTES.md seeded/$ID/ 2>/dev/null
-echo "$base_demo|$tests|$mut_demo|$RES" > seeded/$ID/.last_run
+mkdir -p seeded/$OUT
+cp $SRC/patch.diff $SRC/demo.py seeded/$OUT/; cp $SRC/NOTES.md seeded/$OUT/ 2>/dev/null
+echo "$base_demo|$tests|$mut_demo|$RES" > seeded/$OUT/.last_run
